@@ -230,6 +230,40 @@ let handle (x : sx) : ostring =
        | None -> "BINRUN BAD"
        | Some (((outs, l), r), lo) ->
            "BINRUN " ^ OS.concat " ; " (List.map show_l outs) ^ " | L " ^ show_l l ^ " | R " ^ show_l r ^ " | LO " ^ (match lo with None -> "" | Some x -> show_s x))
+  | L [A "onlun"; kind; L bs] ->
+      let tz_of s = if s = "inf" then TInf else T (z_of_int (int_of_string s)) in
+      let smp = function L [t; v] -> (tz_of (atom t), (Obj.magic (extz_of_string (atom v)) : v)) | _ -> failwith "sample" in
+      let show_t = function TInf -> "inf" | T z -> string_of_int (int_of_z z) in
+      let show_s (t, v) = show_t t ^ ":" ^ string_of_extz (Obj.magic v) in
+      let show_l l = OS.concat " " (List.map show_s l) in
+      let batch = function L a -> List.map smp a | _ -> failwith "batch" in
+      (match Obj.magic (run_onlun (nat_of_sx kind) (Obj.magic (List.map batch bs))) with
+       | None -> "ONLUN BAD"
+       | Some (outs, prev) -> "ONLUN " ^ OS.concat " ; " (List.map show_l outs) ^ " | PREV " ^ (match prev with None -> "" | Some x -> string_of_extz (Obj.magic x)))
+  | L [A "onlsince"; L bs] ->
+      let tz_of s = if s = "inf" then TInf else T (z_of_int (int_of_string s)) in
+      let smp = function L [t; v] -> (tz_of (atom t), (Obj.magic (extz_of_string (atom v)) : v)) | _ -> failwith "sample" in
+      let show_t = function TInf -> "inf" | T z -> string_of_int (int_of_z z) in
+      let show_s (t, v) = show_t t ^ ":" ^ string_of_extz (Obj.magic v) in
+      let show_l l = OS.concat " " (List.map show_s l) in
+      let batch = function L [L a; L b] -> (List.map smp a, List.map smp b) | _ -> failwith "batch" in
+      (match Obj.magic (run_onlsince (Obj.magic (List.map batch bs))) with
+       | None -> "ONLSINCE BAD"
+       | Some ((((outs, l), r), prev), last) ->
+           "ONLSINCE " ^ OS.concat " ; " (List.map show_l outs) ^ " | L " ^ show_l l ^ " | R " ^ show_l r ^ " | PREV " ^ string_of_extz (Obj.magic prev)
+           ^ " | LAST " ^ (match last with None -> "" | Some x -> show_s x))
+  | L [A "onlwin"; kind; a; b; L bs] ->
+      let smp = function L [t; v] -> (z_of_int (int_of_string (atom t)), (Obj.magic (extz_of_string (atom v)) : v)) | _ -> failwith "sample" in
+      let show_t = function TInf -> "inf" | T z -> string_of_int (int_of_z z) in
+      let show_s (t, v) = string_of_int (int_of_z t) ^ ":" ^ string_of_extz (Obj.magic v) in
+      let show_l l = OS.concat " " (List.map show_s l) in
+      let show_p ((lo, hi), v) = string_of_int (int_of_z lo) ^ ":" ^ show_t hi ^ ":" ^ string_of_extz (Obj.magic v) in
+      let batch = function L a -> List.map smp a | _ -> failwith "batch" in
+      (match Obj.magic (run_onlwin (nat_of_sx kind) (z_of_int (int_of_string (atom a))) (z_of_int (int_of_string (atom b))) (Obj.magic (List.map batch bs))) with
+       | None -> "ONLWIN BAD"
+       | Some (((outs, prev), rs), started) ->
+           "ONLWIN " ^ OS.concat " ; " (List.map show_l outs) ^ " | PREV " ^ OS.concat " " (List.map show_p prev)
+           ^ " | RS " ^ (match rs with RNegInf -> "-inf" | RPosInf -> "inf" | RFin z -> string_of_int (int_of_z z)) ^ " | STARTED " ^ show_bool started)
   | L [A "info"; f] ->
       let f = formula_of_sx f in
       Printf.sprintf "HOR %d | BF %s | PAST %s | ISBOOL %s" (int_of_nat (run_hor f)) (show_bool (run_bounded_future f))
